@@ -52,7 +52,7 @@ func timerUses(fn *ssa.Function) []timerUse {
 		if p, ok := cc.Args[0].(*ssa.Parameter); ok && cell == nil {
 			cell = spawnArgCell[p] // the timer variable of start handed to a named goroutine function at its only call site
 		}
-		out = append(out, timerUse{Method: cal.Name(), Cell: cell, Call: in})
+		out = append(out, timerUse{Method: an.NameOf(cal), Cell: cell, Call: in})
 	})
 	return out
 }
@@ -306,7 +306,7 @@ func runC08(c *core.Ctx, o Options) {
 		return
 	}
 	cell, n := waitedTimer(hb)
-	c.Check(n == 1 && cell != nil && w.timers[cell] != nil, "W2", hb.Name(), "waits on exactly one timer created in start", hb.Pos(), "one TakeTimeout on a start() timer", fmt.Sprintf("%d TakeTimeout calls / unknown timer", n))
+	c.Check(n == 1 && cell != nil && w.timers[cell] != nil, "W2", an.NameOf(hb), "waits on exactly one timer created in start", hb.Pos(), "one TakeTimeout on a start() timer", fmt.Sprintf("%d TakeTimeout calls / unknown timer", n))
 	if cell == nil || w.timers[cell] == nil {
 		return
 	}
@@ -382,7 +382,7 @@ func runC08(c *core.Ctx, o Options) {
 			bad = append(bad, fmt.Sprintf("%d waits in one iteration", waits))
 		}
 	}
-	ob := c.Ob("W2", hb.Name(), "each iteration: wait for expiry, leave on session cancellation, else send one Heartbeat", hb.Pos())
+	ob := c.Ob("W2", an.NameOf(hb), "each iteration: wait for expiry, leave on session cancellation, else send one Heartbeat", hb.Pos())
 	if len(bad) > 0 || nSend == 0 {
 		ob.Fail("%s", strings.Join(append(bad, fmt.Sprintf("(%d sending iterations)", nSend)), "; "))
 	} else {
@@ -418,7 +418,7 @@ func runC09(c *core.Ctx, o Options) {
 		return
 	}
 	cell, n := waitedTimer(pr)
-	c.Check(n == 1 && cell != nil && w.timers[cell] != nil, "X3", pr.Name(), "waits on exactly one timer created in start", pr.Pos(), "one TakeTimeout", fmt.Sprintf("%d TakeTimeout calls / unknown timer", n))
+	c.Check(n == 1 && cell != nil && w.timers[cell] != nil, "X3", an.NameOf(pr), "waits on exactly one timer created in start", pr.Pos(), "one TakeTimeout", fmt.Sprintf("%d TakeTimeout calls / unknown timer", n))
 	if cell == nil || w.timers[cell] == nil {
 		return
 	}
@@ -457,7 +457,7 @@ func runC09(c *core.Ctx, o Options) {
 				continue
 			}
 			why := stopsChainWithoutStoreFailure(r.Fn)
-			c.Check(why == "", "X1", r.Fn.Name(), "an earlier all-types incoming handler stops the dispatch only on a store failure", r.Fn.Pos(), "returns true, or (store error) == nil",
+			c.Check(why == "", "X1", an.NameOf(r.Fn), "an earlier all-types incoming handler stops the dispatch only on a store failure", r.Fn.Pos(), "returns true, or (store error) == nil",
 				"this all-types incoming handler can return false — "+why+" — and IncomingHandlerPool.Range then skips the handler that refreshes the probe timer and cancels the pending disconnect: that inbound message does not count as a sign of life")
 		}
 	}
@@ -555,7 +555,7 @@ func runC09(c *core.Ctx, o Options) {
 			bad = append(bad, fmt.Sprintf("%d waits per iteration", waits))
 		}
 	}
-	ob := c.Ob("X3", pr.Name(), "expiry in WaitingTestReqAnswer ⇒ disconnect event and end; in SuccessfulLogged ⇒ WaitingTestReqAnswer + one TestRequest", pr.Pos())
+	ob := c.Ob("X3", an.NameOf(pr), "expiry in WaitingTestReqAnswer ⇒ disconnect event and end; in SuccessfulLogged ⇒ WaitingTestReqAnswer + one TestRequest", pr.Pos())
 	if len(bad) > 0 {
 		ob.Fail("%s", bad[0])
 	} else if nDisc == 0 || nProbe == 0 {
@@ -636,7 +636,7 @@ func (s *sess) checkRestore(rule string, fn *ssa.Function) {
 			bad = "the handler sends"
 		}
 	}
-	s.c.Check(ok && bad == "", rule, fn.Name(), "any inbound message cancels the pending disconnect (WaitingTestReqAnswer → SuccessfulLogged, no event)", fn.Pos(),
+	s.c.Check(ok && bad == "", rule, an.NameOf(fn), "any inbound message cancels the pending disconnect (WaitingTestReqAnswer → SuccessfulLogged, no event)", fn.Pos(),
 		"restores only from WaitingTestReqAnswer", "no restoration path / "+bad)
 }
 
@@ -710,7 +710,7 @@ func checkCloseChain(c *core.Ctx, rule string) {
 				}
 			}
 			if d == nil || !reachesConnClose(d) {
-				bad = fmt.Sprintf("the goroutine %s does not defer the connection's cancel/close as its first action: when it ends, its siblings and the socket stay open", cl.Name())
+				bad = fmt.Sprintf("the goroutine %s does not defer the connection's cancel/close as its first action: when it ends, its siblings and the socket stay open", an.NameOf(cl))
 			}
 		})
 		c.Check(n >= 4 && bad == "", rule, sf.name, "every goroutine of the connection closes it when it ends", fn.Pos(), fmt.Sprintf("%d goroutines, each defers the shared cancel first", n), bad+fmt.Sprintf(" (%d goroutines)", n))
@@ -868,7 +868,7 @@ func (w *wiring) checkTimerClosers(rule string) {
 					}
 				}
 			}
-			c.Check(isDefer && own, rule, fn.Name(), "a timer is closed only by its own waiting goroutine, when that goroutine ends", u.Call.Pos(), "defer timer.Close() in the goroutine that calls timer.TakeTimeout()",
+			c.Check(isDefer && own, rule, an.NameOf(fn), "a timer is closed only by its own waiting goroutine, when that goroutine ends", u.Call.Pos(), "defer timer.Close() in the goroutine that calls timer.TakeTimeout()",
 				"Timer.Close is called outside a defer of the goroutine that waits on that timer: the waiter's TakeTimeout returns as if the period had expired, so a live peer is probed or disconnected (or a Heartbeat is sent early)")
 		}
 	}
